@@ -44,7 +44,54 @@ Definition registered_controls : list string := [
   "b64u"; "b64c"; "b64u-sloppy"; "b64c-sloppy"; "hex"; "hexlc"; "hexuc"; "b32"; "h32"; "b45"; "base10";
   "printf"; "json"; "join" ]%string.
 
-Definition abnf8610 : cfg := [
+(* Tokenisation convention (RFC 8610 Appendix B, comment on type1: "space may be needed before the operator if
+   type2 ends in a name"; section 3.1 treats names as tokens): a name extends as far as it can.  With [tok = true]
+   an `id` - and the name of a control operator - must not be FOLLOWED by text that would continue it, i.e. by
+   EALPHA / DIGIT, or by 1*("-" / ".") and then EALPHA / DIGIT.  [abnf8610] is the literal ABNF (tok = false). *)
+Definition is_ealpha (c : N) : bool :=
+  ((65 <=? c) && (c <=? 90)) || ((97 <=? c) && (c <=? 122)) || (c =? 64) || (c =? 95) || (c =? 36).
+Definition is_digit (c : N) : bool := (48 <=? c) && (c <=? 57).
+Fixpoint skip_dash_dot (r : list N) : list N :=
+  match r with c :: r' => if (c =? 45) || (c =? 46) then skip_dash_dot r' else r | [] => [] end.
+Definition name_continues (r : list N) : bool :=
+  match skip_dash_dot r with c :: _ => is_ealpha c || is_digit c | [] => false end.
+Definition name_boundary (r : list N) : bool := negb (name_continues r).
+
+
+(* ... and so does a number (within the number / uint / occur productions): "0b1" is not "0" followed by the name
+   "b1", "-0x1p-2" is not "-0x1" followed by "p-2", and in "*0" the digit belongs to the occurrence indicator.
+   A number may still be FOLLOWED by a name ("[1a]", "[042]" are derivable and the crate documents that it
+   accepts them); only the choice among the prefixes that are themselves numbers is fixed: the longest. *)
+Definition is_hex (c : N) : bool := is_digit c || ((65 <=? c) && (c <=? 70)) || ((97 <=? c) && (c <=? 102)).
+Definition is_bin (c : N) : bool := (c =? 48) || (c =? 49).
+Definition starts (p : N -> bool) (r : list N) : bool := match r with c :: _ => p c | [] => false end.
+Definition radix_follows (r : list N) : bool :=
+  match r with
+  | c :: d :: _ => (((c =? 120) || (c =? 88)) && is_hex d) || (((c =? 98) || (c =? 66)) && is_bin d)
+  | _ => false
+  end.
+Definition frac_follows (r : list N) : bool := match r with 46 :: d :: _ => is_digit d | _ => false end.
+Definition exp_after (lo up : N) (r : list N) : bool :=      (* e/E (or p/P), optional sign, a digit *)
+  match r with
+  | c :: d :: r' => ((c =? lo) || (c =? up)) && (is_digit d || (((d =? 43) || (d =? 45)) && starts is_digit r'))
+  | _ => false
+  end.
+Definition exp_follows : list N -> bool := exp_after 101 69.
+Fixpoint skip_hex (r : list N) : list N := match r with c :: r' => if is_hex c then skip_hex r' else r | [] => [] end.
+Definition hexfloat_tail (r : list N) : bool :=             (* ["." 1*HEXDIG] "p" exponent follows *)
+  match r with
+  | 46 :: r' => starts is_hex r' && exp_after 112 80 (skip_hex r')
+  | _ => exp_after 112 80 r
+  end.
+Definition nlook (tok : bool) (p : list N -> bool) : aexp := if tok then ALook (fun r => negb (p r)) else AEps.
+
+Definition n_hexint := 61.    (* tokenised reading only *)
+Definition n_otherint := 62.
+
+Definition abnf8610_gen (tok : bool) : cfg :=
+  let boundary := if tok then ALook name_boundary else AEps in
+  let nd := nlook tok (starts is_digit) in
+  let greedy (e : aexp) (follows : list N -> bool) := if tok then AAlt e (ALook (fun r => negb (follows r))) else AOpt e in [
   (* cddl = S *(rule S)                                             RFC 9682 3.1: empty documents allowed *)
   (n_cddl, ASeqs [S_; AStar (ASeqs [R n_rule; S_])]);
   (* rule = typename [genericparm] S assignt S type
@@ -82,13 +129,13 @@ Definition abnf8610 : cfg := [
                    ASeqs [L "#"; L "6"; AOpt (ASeqs [L "."; R n_headnumber]); L "("; S_; R n_type; S_; L ")"];
                    ASeqs [L "#"; L "7"; AOpt (ASeqs [L "."; R n_headnumber])];
                    ASeqs [L "#"; R n_DIGIT; AOpt (ASeqs [L "."; R n_uint])];
-                   L "#"]);
+                   ASeqs [L "#"; nd]]);          (* tokenised reading: "#6" is not "#" followed by "6" *)
   (* head-number = uint / ("<" type ">")                            RFC 9682 3.2 *)
   (n_headnumber, AAlts [R n_uint; ASeqs [L "<"; R n_type; L ">"]]);
   (* rangeop = "..." / ".." *)
   (n_rangeop, AAlts [L "..."; L ".."]);
   (* ctlop = "." id      - restricted to the registered names (exact, lower case) *)
-  (n_ctlop, ASeqs [L "."; AAlts (map X registered_controls)]);
+  (n_ctlop, ASeqs [L "."; AAlts (map X registered_controls); boundary]);
   (* group = grpchoice *(S "//" S grpchoice) *)
   (n_group, ASeqs [R n_grpchoice; AStar (ASeqs [S_; L "//"; S_; R n_grpchoice])]);
   (* grpchoice = *(grpent optcom) *)
@@ -108,21 +155,29 @@ Definition abnf8610 : cfg := [
   (* optcom = S ["," S] *)
   (n_optcom, ASeqs [S_; AOpt (ASeqs [L ","; S_])]);
   (* occur = [uint] "*" [uint] / "+" / "?" *)
-  (n_occur, AAlts [ASeqs [AOpt (R n_uint); L "*"; AOpt (R n_uint)]; L "+"; L "?"]);
+  (n_occur, AAlts [ASeqs [AOpt (R n_uint); L "*"; greedy (R n_uint) (starts is_digit)]; L "+"; L "?"]);
   (* uint = DIGIT1 *DIGIT / "0x" 1*HEXDIG / "0b" 1*BINDIG / "0" *)
-  (n_uint, AAlts [ASeqs [R n_DIGIT1; AStar (R n_DIGIT)]; ASeqs [L "0x"; APlus (R n_HEXDIG)];
-                  ASeqs [L "0b"; APlus (R n_BINDIG)]; L "0"]);
+  (n_uint, AAlts [ASeqs [R n_DIGIT1; AStar (R n_DIGIT); nd]; ASeqs [L "0x"; APlus (R n_HEXDIG); nlook tok (starts is_hex)];
+                  ASeqs [L "0b"; APlus (R n_BINDIG); nlook tok (starts is_bin)]; ASeqs [L "0"; nlook tok radix_follows]]);
   (* value = number / text / bytes *)
   (n_value, AAlts [R n_number; R n_text; R n_bytes]);
   (* int = ["-"] uint *)
   (n_int, ASeqs [AOpt (L "-"); R n_uint]);
   (* number = hexfloat / (int ["." fraction] ["e" exponent ]) *)
-  (n_number, AAlts [R n_hexfloat; ASeqs [R n_int; AOpt (ASeqs [L "."; R n_fraction]); AOpt (ASeqs [L "e"; R n_exponent])]]);
+  (n_number,
+     let tail := ASeqs [greedy (ASeqs [L "."; R n_fraction]) frac_follows; greedy (ASeqs [L "e"; R n_exponent]) exp_follows] in
+     if tok then AAlts [R n_hexfloat; ASeqs [R n_hexint; tail]; ASeqs [R n_otherint; tail]]
+     else AAlts [R n_hexfloat; ASeqs [R n_int; tail]]);
+  (* tokenised reading: int split by radix, so that "0x1p3" / "0x1.8p3" can only be read as hexfloat *)
+  (n_hexint, ASeqs [AOpt (L "-"); L "0x"; APlus (R n_HEXDIG); nlook tok (starts is_hex); nlook tok hexfloat_tail]);
+  (n_otherint, ASeqs [AOpt (L "-"); AAlts [ASeqs [R n_DIGIT1; AStar (R n_DIGIT); nd];
+                                           ASeqs [L "0b"; APlus (R n_BINDIG); nlook tok (starts is_bin)];
+                                           ASeqs [L "0"; nlook tok radix_follows]]]);
   (* hexfloat = ["-"] "0x" 1*HEXDIG ["." 1*HEXDIG] "p" exponent *)
   (n_hexfloat, ASeqs [AOpt (L "-"); L "0x"; APlus (R n_HEXDIG); AOpt (ASeqs [L "."; APlus (R n_HEXDIG)]); L "p"; R n_exponent]);
   (* fraction = 1*DIGIT      exponent = ["+"/"-"] 1*DIGIT *)
-  (n_fraction, APlus (R n_DIGIT));
-  (n_exponent, ASeqs [AOpt (AAlts [L "+"; L "-"]); APlus (R n_DIGIT)]);
+  (n_fraction, ASeqs [APlus (R n_DIGIT); nd]);
+  (n_exponent, ASeqs [AOpt (AAlts [L "+"; L "-"]); APlus (R n_DIGIT); nd]);
   (* text = %x22 *SCHAR %x22 *)
   (n_text, ASeqs [AChr 34; AStar (R n_SCHAR); AChr 34]);
   (* SCHAR = %x20-21 / %x23-5B / %x5D-7E / NONASCII / SESC          RFC 9682 2.1.1 *)
@@ -151,7 +206,7 @@ Definition abnf8610 : cfg := [
   (* bsqual = "h" / "b64" *)
   (n_bsqual, AAlts [L "h"; L "b64"]);
   (* id = EALPHA *( *("-" / ".") (EALPHA / DIGIT)) *)
-  (n_id, ASeqs [R n_EALPHA; AStar (ASeqs [AStar (AAlts [L "-"; L "."]); AAlts [R n_EALPHA; R n_DIGIT]])]);
+  (n_id, ASeqs [R n_EALPHA; AStar (ASeqs [AStar (AAlts [L "-"; L "."]); AAlts [R n_EALPHA; R n_DIGIT]]); boundary]);
   (* ALPHA = %x41-5A / %x61-7A      EALPHA = ALPHA / "@" / "_" / "$" *)
   (n_ALPHA, AAlts [ARng 65 90; ARng 97 122]);
   (n_EALPHA, AAlts [R n_ALPHA; L "@"; L "_"; L "$"]);
@@ -187,7 +242,10 @@ Definition len_hash_paren : cfg :=     (* tag_expr second alternative: #(type) *
   [(n_type2, ASeqs [L "#"; L "("; S_; R n_type; S_; L ")"])].
 Definition leniencies : cfg := len_tab ++ len_final_comment ++ len_h_quoted ++ len_hash_paren.
 
-Definition abnf_lenient : cfg := abnf8610 ++ leniencies.
+Definition abnf8610 : cfg := abnf8610_gen false.               (* the literal ABNF *)
+Definition abnf_lenient : cfg := abnf8610 ++ leniencies.        (* ... + documented leniencies *)
+Definition abnf_spec : cfg := abnf8610_gen true ++ leniencies.  (* ... read with names as maximal tokens: the C03 language *)
 
 Definition rfc_accepts (w : list N) : option bool := recognise abnf8610 n_cddl w.
-Definition spec_accepts (w : list N) : option bool := recognise abnf_lenient n_cddl w.
+Definition lenient_accepts (w : list N) : option bool := recognise abnf_lenient n_cddl w.
+Definition spec_accepts (w : list N) : option bool := recognise abnf_spec n_cddl w.
